@@ -216,6 +216,25 @@ class Universe:
             descr.append(d)
         return self._finish(cid, name, inf, profile, descr, op_patches)
 
+    def directed(self, k):
+        """A few directed cases outside the numbered universe (negative ids in the checks): the
+        directory with the most entries of image k is wiped, so that hundreds of inodes have to be
+        reconnected (lost+found grows by whole blocks / clusters)."""
+        name = self.names[k % len(self.names)]
+        inf = self.info(name)
+        count = {}
+        for o in inf.by_kind.get("dir_leaf", []):
+            count[o.ino] = count.get(o.ino, 0) + 1
+        cand = [i for i in count if i >= inf.first_ino and inf.inodes.get(i, {}).get("isdir")]
+        if not cand:
+            return None
+        ino = max(cand, key=lambda i: (count[i], -i))
+        how = ["zero-inode", "mode-0"][(k // len(self.names)) % 2]
+        base = inf.inodes[ino]["off"]
+        p = [(base, bytes(128))] if how == "zero-inode" else [(base, b"\0\0")]
+        d = [("inode", "dir", how, "ino%d (largest directory)" % ino)]
+        return self._finish(-(k + 1), name, inf, "all", d, [p])
+
     def subset(self, case, keep, profile="all"):
         """the same case with only the operators whose indices are in `keep`"""
         inf = self.info(case.image)
